@@ -404,6 +404,9 @@ def main():
         conds.append(Cond("vf.ch.h_engine", "check_keys_q" if chk.tier == "quick" else "check_keys",
                           f"every kernel call (init, start, transition, end, tune, end_warmup) for epoch types INITIAL,{ts} receives a distinct key term derived from the seed only",
                           timeout_s=600 if chk.tier == "quick" else 1200, env={"TYPES": ts, "NK": "2", "NH": nh, "STORE": str(store), "UPFRONT": str(up), "QG": str(qg)}, signature=f"keys:{ts}"))
+    s, nh, store, up = pl[1]
+    conds.append(Cond("vf.ch.h_engine", "check_keys_chunks", f"distinct key terms when epochs are sampled in several JIT chunks of 2 or 3 iterations (durations chunk*q, q <= 2; epoch types INITIAL,{','.join(map(str, s))})",
+                      timeout_s=900, env={"TYPES": ",".join(map(str, s)), "NK": "2", "NH": nh, "STORE": str(store), "UPFRONT": str(up), "QG": "0"}, signature="keys:multi-chunk"))
     conds.append(Cond("vf.ch.h_builder", "check_seed_int_equals_key", "EngineBuilder(seed=n) and EngineBuilder(seed=PRNGKey(n)) derive the same, pairwise distinct engine / jitter / builder keys", 200, signature="seed-int-key"))
     run_conditions(chk, conds)
     # B
